@@ -76,6 +76,50 @@ def def_runs(vec):
     return out
 
 
+def lin_ok(jump, rain):
+    """ok_i := exists r <= i: rain_r and all j in (r, i]: not rain_j and not jump_j, by the recurrence
+    ok_i = rain_i or (ok_{i-1} and not rain_i and not jump_i) - the definition in one pass, for vectors too long for
+    the brute-force form (cross-checked against it on every short vector, `check_linear`)."""
+    out, ok = [], False
+    for j, r in zip(jump, rain):
+        ok = bool(r) or (ok and not j)
+        out.append(ok)
+    return out
+
+
+def lin_mystery(jump, rain):
+    return [not ok for ok in lin_ok(jump, rain)]
+
+
+def lin_interstorm(jump, rain):
+    return [(not r) and ok for r, ok in zip(rain, lin_ok(jump, rain))]
+
+
+BRUTE_MAX = 80      # brute-force definitions up to this length, the one-pass form above it
+
+
+def the_mystery(jump, rain):
+    return def_mystery(jump, rain) if len(rain) <= BRUTE_MAX else lin_mystery(jump, rain)
+
+
+def the_interstorm(jump, rain):
+    return def_interstorm(jump, rain) if len(rain) <= BRUTE_MAX else lin_interstorm(jump, rain)
+
+
+def the_runs(vec):
+    return def_runs(vec) if len(vec) <= BRUTE_MAX else K.runs_of(vec)
+
+
+def check_linear(jump, rain, out):
+    """The one-pass oracles agree with the brute-force definitions on this (short) input - else the harness is wrong."""
+    if len(jump) != len(rain) or len(rain) > BRUTE_MAX:
+        return
+    if lin_mystery(jump, rain) != def_mystery(jump, rain) or lin_interstorm(jump, rain) != def_interstorm(jump, rain) \
+            or K.runs_of(rain) != def_runs(rain):
+        out.corr_errors.append('one-pass oracle differs from the brute-force definition on jump=%s rain=%s' % (jump, rain))
+    out.count('one-pass-oracle-cross-checked-against-brute-force')
+
+
 # ------------------------------------------------------------- FL cases
 
 def gen_bool_pairs(rng, count):
@@ -126,6 +170,7 @@ def check_fl_mystery(cases, out, label):
         if res[0] == 'ok':
             # oracle: the definition, by brute force
             want = def_mystery(jump, rain)
+            check_linear(jump, rain, out)
             if res[1] != want:
                 out.violation('oracle', 'get_mystery_jump_mask disagrees with the definition of the '
                               'unexplained-rise flag on jump=%s rain=%s: got %s want %s'
@@ -178,6 +223,69 @@ def check_fl_runs(vecs, out, label):
                       % (vecs[i], results[i]), case=dict(level='FL-runs', vec=vecs[i]))
 
 
+# ------------------------------------------------------------- FL, large (oracle only)
+
+def big_vector(spec):
+    """Boolean vector with spec['runs'] runs of True (lengths 1..2, or 1..9 when 'wide') separated by 1..2 False, from a
+    private stream; begins / ends with True or False as the stream decides."""
+    import random
+    rng = random.Random(spec['rseed'])
+    v = [False] * rng.randrange(0, 3)
+    for _ in range(spec['runs']):
+        v += [True] * (rng.choice([1, 1, 1, 2]) if not spec.get('wide') else rng.randrange(1, 10))
+        v += [False] * rng.choice([1, 1, 2])
+    if rng.random() < 0.5:
+        while v and not v[-1]:
+            v.pop()
+    return v
+
+
+def run_counts(rng, tier):
+    """Numbers of separate runs past the sizes at which a run counter / label array could wrap or be cut."""
+    quick = [G.odd_size(rng, 1030, 4090), G.odd_size(rng, 8200, 10000), rng.randrange(32769, 33400)]
+    if tier == 'quick':
+        return quick
+    return quick + [G.odd_size(rng, 4100, 8190), G.odd_size(rng, 10001, 16380), G.odd_size(rng, 16390, 32760),
+                    rng.randrange(65537, 66000), 32767, 32768, 256, 257, 65535]
+
+
+def check_fl_large(specs, out):
+    """get_true_interval_masks on vectors with thousands of runs (number and position of every run against a one-pass
+    scan) and get_mystery_jump_mask on vectors of the same lengths (against the one-pass form of the definition).
+    Oracle only: nothing is sent to Coq."""
+    import random
+    for spec in specs:
+        v = big_vector(spec)
+        out.evaluations += 1
+        out.count('FL-runs-large(runs>%d)' % max(b for b in [0, 1000, 1024, 4096, 8192, 10000, 16384, 32767, 65535] if b < spec['runs']))
+        case = dict(level='FL-large', spec=spec)
+        res = impl_runs(v)
+        want = K.runs_of(v)
+        if res[0] != 'ok':
+            out.violation('oracle', 'get_true_interval_masks raised %s on a vector of %d elements with %d runs of True'
+                          % (res[1], len(v), len(want)), case=case)
+        elif res[1] != want:
+            k = next((i for i, (a, b) in enumerate(zip(res[1], want)) if a != b), min(len(res[1]), len(want)))
+            out.violation('oracle', 'get_true_interval_masks on a vector of %d elements with %d runs of True: %d masks '
+                          'returned; first difference at run %d: got %s, the run is %s'
+                          % (len(v), len(want), len(res[1]), k, res[1][k] if k < len(res[1]) else None,
+                             want[k] if k < len(want) else None), case=case)
+        else:
+            out.nontriv(('r-large', spec['runs'], spec['rseed']))
+        rng = random.Random(spec['rseed'] + 1)
+        rain = [(not x) and rng.random() < 0.3 for x in v]
+        jump = [x and rng.random() < 0.4 or rng.random() < 0.02 for x in v]
+        out.evaluations += 1
+        out.count('FL-mystery-large')
+        resm = impl_mystery(jump, rain)
+        if resm[0] != 'ok':
+            out.violation('oracle', 'get_mystery_jump_mask raised %s on vectors of %d elements' % (resm[1], len(v)), case=case)
+        elif resm[1] != lin_mystery(jump, rain):
+            k = next(i for i, (a, b) in enumerate(zip(resm[1], lin_mystery(jump, rain))) if a != b)
+            out.violation('oracle', 'get_mystery_jump_mask on vectors of %d elements differs from the definition of the '
+                          'unexplained-rise flag first at index %d' % (len(v), k), case=case)
+
+
 # ------------------------------------------------------------- CL cases
 
 def read_classification(db):
@@ -195,19 +303,20 @@ def read_classification(db):
 def cl_case(rec, d, out):
     """Run load + classify (at the verbosity rec['verb']) on a record. Returns dict with per-stretch data."""
     ds = G.to_dataset(rec)
-    db, rc, exc = D.load(ds, d)
-    if exc is not None:
-        return dict(stage='load', exc=exc)
-    rc, exc, _ = K.classify_cli(db, rec, out)
-    if exc is not None:
-        return dict(stage='classify', exc=exc)
+    db, stage, exc = K.run_commands(rec, ds, d, out)
+    if rec.get('env'):
+        K.env_compare(rec, ds, db, stage, exc, out, PROP, dict(level='CL', rec=rec))
+    if stage != 'done':
+        return dict(stage=stage, exc=exc)
     st, step = D.stretches(db)
     K.label_hole(st, out)
     flags, inter = read_classification(db)
     return dict(stage='done', stretches=st, step=step, flags=flags, inter=inter)
 
 
-def check_cl(recs, out, label):
+def check_cl(recs, out, label, coq=True):
+    """coq=False: large records (compact specs), judged by the oracle alone (one-pass form of the definitions).
+    Records carrying rec['env'] go through load + classify in a child process under that environment variant."""
     strs, meta = [], []
     recs = [K.with_verbosity(rec, k) for k, rec in enumerate(recs)]
     for k, rec in enumerate(recs):
@@ -217,13 +326,17 @@ def check_cl(recs, out, label):
         out.count('CL:' + rec['cls'])
         if rec.get('fine', 1) > 1:
             out.count('CL-fine-water-level(x%d)%s' % (rec['fine'], '+island' if rec.get('island') else ''))
-        case = dict(level='CL', rec=rec)
+        if rec.get('far'):
+            out.count('CL-far-origin:' + G.far_kind(rec))
+        case = dict(level='CL', rec=rec, coq=coq)
         if r['stage'] == 'load':
             out.count('CL-load-refused')
             continue
         if r['stage'] == 'classify':
-            out.violation('oracle', 'classify raised %s: %s on a loaded dataset (class %s)'
-                          % (type(r['exc']).__name__, r['exc'], rec['cls']), case=case)
+            out.violation('oracle', 'classify raised %s: %s on a loaded dataset (class %s%s%s)'
+                          % (type(r['exc']).__name__, str(r['exc'])[:300], rec['cls'],
+                             (', origin %s' % D.fmt_utc(rec['t0'])) if rec.get('far') else '',
+                             (', environment %s' % rec['env']) if rec.get('env') else ''), case=case)
             continue
         step = r['step']
         delta = rec['thr_j'] * (step / 3600.0)
@@ -249,23 +362,39 @@ def check_cl(recs, out, label):
             # increment strictly above threshold x step)
             wet = [x > 0 for x in rain]
             jump = [False] + [(zeta[i + 1] - zeta[i]) > delta for i in range(len(zeta) - 1)]
-            want_m, want_i = def_mystery(jump, wet), def_interstorm(jump, wet)
-            want_iv = [(a, b - 1) for a, b in def_runs(want_i) if b - a >= 2]
+            want_m, want_i = the_mystery(jump, wet), the_interstorm(jump, wet)
+            want_iv = [(a, b - 1) for a, b in the_runs(want_i) if b - a >= 2]
+            check_linear(jump, wet, out)
+            big = len(ep) > 200
+            where = lambda x, y: ''                                                # noqa: E731
+            if big:
+                # long record: show the neighbourhood of the first difference instead of the whole vectors
+                def where(x, y):
+                    k = next((i for i, (a, b) in enumerate(zip(x, y)) if a != b), min(len(x), len(y)))
+                    return ' [%d samples; %d vs %d entries; first difference at index %d: stored %s expected %s]' % (
+                        len(ep), len(x), len(y), k, x[max(0, k - 3):k + 4], y[max(0, k - 3):k + 4])
+                out.count('CL-large:%s:samples' % rec['cls'], len(ep))
+                out.count('CL-large:%s:interstorm-intervals' % rec['cls'], len(want_iv))
+                out.count('CL-large:interval-or-unexplained-rise-across-a-block-edge',
+                          sum(1 for p in G.block_edges(len(ep), margin=1) if (want_i[p - 1] and want_i[p]) or (want_m[p - 1] and want_m[p])))
+            show = (lambda x: '...') if big else (lambda x: x)
             if ij != jump:
                 out.violation('oracle', 'stored rise flag differs from "increment > threshold x step" '
-                              'at stretch %s: stored %s expected %s' % (st['label'], ij, jump), case=case)
+                              'at stretch %s: stored %s expected %s%s' % (st['label'], show(ij), show(jump), where(ij, jump)), case=case)
             if im != want_m:
                 out.violation('oracle', 'stored unexplained-rise flag differs from its definition at '
-                              'stretch %s: stored %s expected %s' % (st['label'], im, want_m), case=case)
+                              'stretch %s: stored %s expected %s%s' % (st['label'], show(im), show(want_m), where(im, want_m)), case=case)
             if ii != want_i:
                 out.violation('oracle', 'stored interstorm flag differs from its definition at stretch '
-                              '%s: stored %s expected %s' % (st['label'], ii, want_i), case=case)
+                              '%s: stored %s expected %s%s' % (st['label'], show(ii), show(want_i), where(ii, want_i)), case=case)
             if iv != want_iv:
                 out.violation('oracle', 'recorded interstorm intervals %s differ from the maximal '
-                              'clean rain-free stretches %s (stretch %s)' % (iv, want_iv, st['label']),
+                              'clean rain-free stretches %s (stretch %s)%s' % (show(iv), show(want_iv), st['label'], where(iv, want_iv)),
                               case=case)
-            if want_iv and any(want_m[i] and any(wet[:i]) for i in range(len(wet))):
-                out.nontriv(('cl', tuple(jump), tuple(wet)))
+            if want_iv and (big or any(want_m[i] and any(wet[:i]) for i in range(len(wet)))):
+                out.nontriv(K.flags_key('cl', jump, wet))
+            if not coq:
+                continue
             strs.append('(%s, %s, %s, %s, {| sf_jump := %s; sf_mystery := %s; sf_interstorm := %s; '
                         'sf_intervals := %s |})'
                         % (C.cfloat(rec['thr_j']), C.cZ(step), C.cfloats(rain), C.cfloats(zeta),
@@ -317,12 +446,29 @@ def run(ctx, out):
     # island of readings between two outages (data-interval numbers with a hole); own stream: the records
     # themselves are the same as without this stage
     recs = G.fine_share(recs, C.rng_for(seed, PROP, 'fine'), every=3, phase=1)
-    check_cl(recs, out, 'cl')
+    # every 5th record dated where epochs leave the 32-bit range (around 2038 / 2106 / 1901, centuries away); own stream
+    recs = G.far_share(recs, C.rng_for(seed, PROP, 'far'))
+    # environment stage: records with a recorded dry spell once more, load + classify in a child process under
+    # `python -O` (twice) and two other variants of harness.envcheck; judged alike and compared with the default run
+    recs_env = K.env_records(recs, C.rng_for(seed, PROP, 'env'), seed,
+                             fits=lambda r: r['cls'] in ('events', 'threshold', 'gappy', 'random', 'norain') and len(r['rain']) >= 12)
+    check_cl(recs + recs_env, out, 'cl')
+    large_stage(seed, tier, out)
     out.rule = ('FL: seeded boolean vector pairs (random, sparse, all/no rain, blocks, unequal lengths) '
                 'through get_mystery_jump_mask / get_true_interval_masks; CL: synthetic records of 10 '
                 'classes through the CLI load+classify (classify rotating no flag / -v / -vv / -vvv; a third of '
                 'the records with a 2-3x finer water level series, outages and an island of readings that makes '
-                'the stored data-interval numbers skip one), one case per gap-free stretch. Non-trivial: the '
+                'the stored data-interval numbers skip one), one case per gap-free stretch; every 5th CL record dated '
+                'beyond the 32-bit range of epochs; environment stage: 4 records with dry spells and rainy steps through '
+                'load + classify in a child process (python -O twice, two of TZ=.. / -vvv / other directory / random hash '
+                'seed), judged alike and tables compared with the default run; LARGE-INPUT stage, oracle only (nothing of '
+                'it is sent to Coq: reading the literals would dominate; the one-pass form of the definitions is '
+                'cross-checked against the brute-force form on every short case): get_true_interval_masks on vectors with '
+                '1030-4090 / 8200-10000 / more than 32768 separate runs (thorough: more than 65536) and '
+                'get_mystery_jump_mask on vectors as long; one gap-free record of 8300-20000 samples through the CLI with '
+                'thousands of dry spells, dry spells laid across every sample index that is a multiple of 1000 / 1024 / '
+                '4096 / 8192 / 10000 / 16384 or of one less (thorough: a record with more than 32768 recorded dry spells). '
+                'Non-trivial: the '
                 'mask has both values after some rain (FL), >= 2 runs (runs), or a stretch with a recorded '
                 'interval and an unexplained rise after rain (CL); distinct by the boolean vectors.')
     out.samples = [dict(level='FL', jump=j, rain=r) for j, r in gen_bool_pairs(C.rng_for(seed, 's'), 3)[:2]]
@@ -331,11 +477,25 @@ def run(ctx, out):
                         'the join of classify is modelled in harness/dataset.py:stretches']
 
 
+def large_stage(seed, tier, out):
+    rng = C.rng_for(seed, PROP, 'large')
+    specs = [dict(runs=r, rseed=rng.getrandbits(40), wide=(k % 4 == 1)) for k, r in enumerate(run_counts(rng, tier))]
+    check_fl_large(specs, out)
+    recs = [G.gen_spells_spec(rng, G.odd_size(rng, 8300, 20000), period=rng.choice([3, 4, 6]))]
+    if tier != 'quick':
+        # more than 32767 SEPARATE recorded dry spells in one gap-free record (light rain every third or fourth step)
+        recs += [G.gen_spells_spec(rng, G.odd_size(rng, 116000, 120000), period=3, jumps=0.02),
+                 G.gen_spells_spec(rng, G.odd_size(rng, 33000, 60000), period=8)]
+    check_cl(recs, out, 'cl_large', coq=False)
+
+
 def replay(case, out):
     C.import_spowtd()
-    if case['level'] == 'FL-mystery':
+    if case['level'] == 'FL-large':
+        check_fl_large([case['spec']], out)
+    elif case['level'] == 'FL-mystery':
         check_fl_mystery([(case['jump'], case['rain'])], out, 'replay')
     elif case['level'] == 'FL-runs':
         check_fl_runs([case['vec']], out, 'replay')
     else:
-        check_cl([case['rec']], out, 'replay')
+        check_cl([case['rec']], out, 'replay', coq=case.get('coq', True))
